@@ -116,3 +116,17 @@ def _v33(repo, mod):
     fn = repo.methods(repo.cls(TR, "ExecutionTracer"))["__exit__"]
     s = find_stmt(fn, lambda s: isinstance(s, ast.If))
     return replace_node(mod, s.test, "not (self._current_thread_identifier != threading.current_thread().ident)")
+
+
+@variant("C32", "proxy-run-after-timeout", EXE, "C32.no-retry", "the second (proxy) run also follows a timed-out first run")
+def _v40(repo, mod):
+    fn = repo.func(EXE, "TypeTracingTestCaseExecutor.execute")
+    s = find_stmt(fn, lambda s: isinstance(s, ast.If) and norm(s.test) == "not result.timeout")
+    return replace_node(mod, s.test, "not (result.timeout and result.has_test_exceptions())")
+
+
+@variant("C32", "twin-guard-by-early-return", EXE, None, "returning early on a timeout instead of nesting stays silent")
+def _v41(repo, mod):
+    fn = repo.func(EXE, "TypeTracingTestCaseExecutor.execute")
+    s = find_stmt(fn, lambda s: isinstance(s, ast.If) and norm(s.test) == "not result.timeout")
+    return insert_before(mod, s, "if result.timeout:\n    return result")
